@@ -501,8 +501,10 @@ func cutsFor(rng *rand.Rand, items []itemT) []int {
 	return out
 }
 
+// direct: initialisers and function literals name package-level variables directly — cut anywhere,
+// such an initialiser names a variable of an earlier Eval (the shape of F11-1, repaired): half of the cases
 func newGen(rng *rand.Rand) *genT {
-	return &genT{rng: rng, direct: rng.Intn(10) < 4}
+	return &genT{rng: rng, direct: rng.Intn(10) < 5}
 }
 
 // ---- out-of-domain perturbations of an in-domain program ----
@@ -546,7 +548,25 @@ func mentions(it *itemT, name string) bool {
 func perturb(g *genT, items []itemT) ([]itemT, string) {
 	rng := g.rng
 	cp := append([]itemT{}, items...)
-	switch rng.Intn(5) {
+	switch rng.Intn(6) {
+	case 5: // a variable whose initialiser depends on the variable itself: an initialization cycle for Go, a
+		// definition loop for the interpreter, piecewise and whole. It comes first: a session has
+		// run the texts before the faulty one, which a rejected whole program never does.
+		{
+			x := g.fresh("v")
+			var its []itemT
+			switch rng.Intn(3) {
+			case 0:
+				its = []itemT{{K: "var", X: x, E: bin("add", glob(x), num(1))}}
+			case 1:
+				its = []itemT{{K: "closure", X: x, B: &bodyT{Guard: num(0), Ret: bin("add", &exprT{K: "callv", X: x, A: bin("sub", &exprT{K: "arg"}, num(1))}, num(1))}}}
+			default:
+				// through a function of the same text
+				f := g.fresh("f")
+				its = []itemT{{K: "func", X: f, B: &bodyT{Ret: bin("add", glob(x), &exprT{K: "arg"})}}, {K: "var", X: x, E: call(f, num(0))}}
+			}
+			return append(its, cp...), "self-dependency"
+		}
 	case 0: // forward reference: move a function behind its first user
 		for try := 0; try < 10; try++ {
 			i := rng.Intn(len(cp))
@@ -597,6 +617,10 @@ func perturb(g *genT, items []itemT) ([]itemT, string) {
 				it := cp[i]
 				if it.K == "func" {
 					it.B = &bodyT{Ret: num(int64(40 + rng.Intn(9)))}
+				} else if rng.Intn(3) == 0 {
+					// the new declaration names the variable: across Evals this is the NEW variable
+					// waiting for itself ("variable definition loop")
+					it.E = bin("add", glob(it.X), num(int64(1+rng.Intn(3))))
 				} else {
 					it.E = num(int64(40 + rng.Intn(9)))
 				}
@@ -640,7 +664,54 @@ func (g *genT) history(thorough bool) (texts [][]itemT, note string) {
 	special := g.pick(12)
 	for r := 0; r < rounds; r++ {
 		all := append(append([]string{}, g.vars...), g.locals...)
-		switch k := g.pick(6); {
+		switch k := g.pick(10); {
+		case k == 6 && len(g.methods) > 0: // declare a method again (F11-7, repaired: it replaces the earlier one)
+			j := g.pick(len(g.methods))
+			m := g.methods[j]
+			// not itself: the new node is registered before the body is compiled
+			saved := g.methods
+			g.methods = append(append([]methInfo{}, saved[:j]...), saved[j+1:]...)
+			b, _ := g.body(m.typ+"."+m.name, true, false, g.vars)
+			g.methods = saved
+			g.methods[j].recursive = false
+			texts = append(texts, []itemT{{K: "method", X: m.typ, M: m.name, B: b}})
+			texts = append(texts, []itemT{{K: "stmt", S: &stmtT{K: "print", Tag: g.tag(), E: &exprT{K: "mcall", X: m.typ, M: m.name, A: num(int64(1 + g.pick(4))), B: num(int64(g.pick(4)))}}}})
+			note = "method-redefinition"
+		case k == 7: // declare main, alone or among other declarations (F11-8, repaired: it runs with this text only)
+			c := ctxT{vars: g.vars}
+			mb := &bodyT{Stmts: append([]stmtT{{K: "print", Tag: g.tag(), E: num(int64(80 + g.pick(9)))}}, g.stmts(g.pick(2), c, g.vars)...), Ret: num(0)}
+			t := []itemT{{K: "func", X: "main", B: mb}}
+			if g.pick(2) == 0 {
+				x := g.fresh("v")
+				t = append([]itemT{{K: "var", X: x, E: g.initExpr()}}, t...)
+				g.vars = append(g.vars, x)
+			}
+			if g.pick(3) == 0 {
+				t = append(t, itemT{K: "init", B: &bodyT{Stmts: g.stmts(1, c, g.vars), Ret: num(0)}})
+			}
+			texts = append(texts, t)
+			note = "main-declared"
+		case k == 8 && len(g.vars) > 0: // declare a variable again with an initialiser over the session's variables and functions
+			x := g.vars[g.pick(len(g.vars))]
+			switch g.pick(4) {
+			case 0: // …that names the variable itself: the new one, which waits for itself
+				texts = append(texts, []itemT{{K: "var", X: x, E: bin("add", glob(x), num(int64(1 + g.pick(3))))}})
+				texts = append(texts, []itemT{{K: "stmt", S: &stmtT{K: "print", Tag: g.tag(), E: glob(x)}}})
+				return texts, "self-dependency"
+			case 1: // …through a function of the same text
+				f := g.fresh("f")
+				texts = append(texts, []itemT{{K: "func", X: f, B: &bodyT{Ret: bin("add", glob(x), &exprT{K: "arg"})}}, {K: "var", X: x, E: call(f, num(int64(g.pick(3))))}})
+				texts = append(texts, []itemT{{K: "stmt", S: &stmtT{K: "print", Tag: g.tag(), E: glob(x)}}})
+				return texts, "self-dependency"
+			default: // …over the other variables (F11-1, repaired) and the functions compiled earlier, which keep the old variable
+				var others []string
+				for _, v := range g.vars {
+					if v != x {
+						others = append(others, v)
+					}
+				}
+				texts = append(texts, []itemT{{K: "var", X: x, E: g.expr(2, ctxT{vars: others})}})
+			}
 		case k <= 2 && len(g.funcs) > 0: // redefine a function
 			i := g.pick(len(g.funcs))
 			f := g.funcs[i]
@@ -765,7 +836,6 @@ func generate(rng *rand.Rand, thorough bool) []caseT {
 	}
 	for i := 0; i < nHist; i++ {
 		g := newGen(rng)
-		g.direct = false
 		texts, note := g.history(thorough)
 		out = append(out, caseT{Kind: "hist", Texts: texts, Note: note})
 	}
